@@ -332,6 +332,7 @@ func init() {
 			{"S1", "status arithmetic = its own digit check: Status is 100*d0+10*d1+d2 over three consecutive bytes, each in '0'..'9' at the store (exact byte sets of the same cells), value within 0..999, StatusCode spans exactly those positions and the next byte is a single space", ruleS1},
 			{"S2", "look-ahead budget: every index in ParseFLine is discharged by the index-guard rules (14-byte minimum, Prefix summary)", func(c *Ctx) { ruleGFor(c, "S2", map[string]bool{"ParseFLine": true}) }},
 			{"S3", "MethodNo = GetMethodNo(Method.Get(buf)) right after the method token is closed and found non-empty; the method table is searched with bytes.Equal over the whole name (case-sensitive), miss = MOther", ruleS3},
+			{"S6", "the per-state path table of ParseFLine (for every state every path to a return: verdict set, returned offset, state left in the object, field actions; variables abstracted, conditions merged) equals the reviewed reference table committed under sa/ref/", func(c *Ctx) { pathRefRule(c, "S6", "ParseFLine", "fl") }},
 			{"S5", "exact byte sets of the token scanners the first line is cut with: skipToken goes on over exactly the bytes other than SP HT CR LF, skipWS over exactly SP HT, skipLine over everything but CR LF, skipTokenDelim like skipToken minus its delimiter parameter (exact byte set of buf[offs] at the loop's back edge; an unevaluable test leaves the full set and fails)", ruleS5},
 			{"S4", "single-space grammar: Method and URI are closed only when the delimiter byte set is exactly {SP}, Version only on {CR, LF}; a reply is recognised by the 8-byte prefix \"SIP/2.0 \" including the space and its Version excludes that space", ruleS4},
 		},
